@@ -2153,9 +2153,9 @@ def exPorts : Except Err Result → Except Err ExPorts
       portNames res.cs res.inp, portNames res.cs res.outp, res.ps.map (·.conds)⟩
   | .error e => .error e
 
-/-- `add({'d': 'rd'}, exRp)`: the port `rd` is re-attached on modes 1-2 on the input side, where `d` is no input
-port of … no: `d` is still there, so `rd` is dropped on both sides (modes not free); the herald is appended on
-mode 4 on both sides; the post-selection `[1] == 1` is carried over onto mode 1 -/
+/-- `add({'d': 'rd'}, exRp)` with `keep_port`: the port `d` is still on modes 1-2 on both sides, so `rd` is dropped
+on both sides (modes not free); the herald is appended on mode 4 as an input and an output port; the
+post-selection `[1] == 1` is carried over onto mode 1 -/
 example : exPorts (compose .all true true exLp exRp (.ofDict [(.name "d", .name "rd")]) true) =
     .ok ⟨[(0, 1, "a"), (1, 2, "d"), (4, 1, "herald#")], [(0, 1, "a"), (1, 2, "d"), (4, 1, "herald#")],
       some ["a", "d", "d", "", "herald#"], some ["a", "d", "d", "", "herald#"], some [[1]]⟩ := by decide
